@@ -4,17 +4,18 @@ import json, os, random, re, time
 from . import core, p_table
 
 MC_ACTIONS = ["PickSkeleton", "PickGraph", "A_PickEdge", "A_LastEdge", "A_Assign", "A_DrawXi", "A_Rescale",
-              "A_DecompOk", "A_DecompErr", "A_LambdaOk", "A_LambdaErr", "A_BoxMullerA", "A_BoxMullerB", "A_Finish"]
+              "A_DecompOk", "A_DecompErr", "A_LambdaOk", "A_LambdaErr", "A_BoxMullerA", "A_BoxMullerB", "A_UVectors", "A_VPoly",
+              "A_Momenta", "A_Jacobian", "A_Return"]
 MC_INVS = {
     "C06": ["I_TypeOK", "I_SectorTotal", "I_RolesOK", "I_ReadsAtExit"],
     "C13": ["I_TypeOK", "I_BoxMullerMap", "I_RolesOK", "I_Independent"],
-    "C14": ["I_TypeOK", "I_RolesOK", "I_ReadsAtExit", "I_Independent"],
+    "C14": ["I_TypeOK", "I_RolesOK", "I_ReadsAtExit", "I_Independent", "I_OutDepsOK"],
     "C19": ["I_TypeOK", "I_NarrowOnlyLambda", "I_LogsOK"],
     "C07": ["I_TypeOK", "I_SectorFormula", "I_FlagsOK", "I_FlagsComplete", "I_RescaleNormalises"],
-    "C11": ["I_TypeOK", "I_RescaleNormalises", "I_FlagsComplete"],
+    "C11": ["I_TypeOK", "I_RescaleNormalises", "I_FlagsComplete", "I_OutDepsOK"],
     "C17": ["I_TypeOK", "I_LogsOK"],
 }
-TRACE_INVS = ["TI_Roles", "TI_Reads", "TI_Indep", "TI_BM", "TI_Narrow", "TI_Sector", "TI_Flags", "TI_Logs"]
+TRACE_INVS = ["TI_Roles", "TI_Reads", "TI_Indep", "TI_BM", "TI_Narrow", "TI_Sector", "TI_Flags", "TI_Logs", "TI_OutDeps"]
 
 
 def mc_sample(prop, tier, wd):
